@@ -483,6 +483,9 @@ mod reduction {
 
     macro_rules! rp {
         ($name:ident, $model:ident) => {
+            rp!($name, $model, |p| p);
+        };
+        ($name:ident, $model:ident, $finish:expr) => {
             #[kani::proof]
             #[kani::unwind(9)]
             fn $name() {
@@ -492,13 +495,14 @@ mod reduction {
                 let touch: bool = kani::any(); // false: keep the documented default eps = 0.1
                 let build = || {
                     let p = $model::<f64>::params();
-                    if !touch {
+                    let p = if !touch {
                         p
                     } else if use_dim {
                         p.target_dim(dim)
                     } else {
                         p.eps(eps)
-                    }
+                    };
+                    ($finish)(p)
                 };
                 let acc = !touch || if use_dim { dim >= 1 } else { eps > 0.0 && eps < 1.0 };
                 let rej = !acc;
@@ -535,6 +539,9 @@ mod reduction {
     }
     rp!(c04_gaussian_random_projection, GaussianRandomProjection);
     rp!(c04_sparse_random_projection, SparseRandomProjection);
+    // the generator exchanged after the setters ran: `with_rng` must carry the parameters over
+    rp!(c04_gaussian_random_projection_with_rng, GaussianRandomProjection, |p: linfa_reduction::random_projection::RandomProjectionParams<_, _>| p.with_rng(crate::clustering::NoRng));
+    rp!(c04_sparse_random_projection_with_rng, SparseRandomProjection, |p: linfa_reduction::random_projection::RandomProjectionParams<_, _>| p.with_rng(crate::clustering::NoRng));
 }
 
 // ---------------------------------------------------------------------------------------------
